@@ -250,6 +250,16 @@ def g_commute(ctx, rng, i):
             continue
         c06.check_image(ctx, "polytope", t, poly, t * poly, "t*polytope")
 
+    # the same relations after the matrix of t has been edited in place (documented mutator __setitem__): nothing stale may survive
+    if mode == "int":
+        t[0, n - 1] = t.array[0, n - 1] + 3
+        if abs(np.linalg.det(np.asarray(t.array, dtype=float))) > 0.5:
+            tol = 1e-9 * max(1.0, float(np.linalg.cond(np.asarray(t.array, dtype=float)))) ** 2
+            rec("commute.join", "after in-place edit of t: t*join(p,q) vs join(t*p,t*q)", t * g.join(P[0], P[1]), g.join(t * P[0], t * P[1]), [t, P[0], P[1]])
+            rec("commute.meet", "after in-place edit of t: t*meet(g,h) vs meet(t*g,t*h)", t * g.meet(H[0], H[1]), g.meet(t * H[0], t * H[1]), [t, H[0], H[1]])
+            l2 = g.join(P[0], P[1])
+            same_bool("incidence", "after in-place edit of t: line.contains(incident)", l2.contains(P[0]), (t * l2).contains(t * P[0]), [t, l2, P[0]])
+
 
 GROUPS = [
     {"name": "commute", "fn": g_commute, "quick": 720, "thorough": 7200},
